@@ -25,6 +25,7 @@ BASE_ENV = {
     "LC_ALL": "C.UTF-8",
     "TZ": "UTC",
     "GIT_TERMINAL_PROMPT": "0",
+    "RUST_BACKTRACE": "0",          # the panic line must stay within the stderr excerpts that are kept
 }
 
 
